@@ -35,6 +35,7 @@ var solvers = map[string]solverSpec{
 	"z3-new/em0": {"z3-new/em0", func(f string, t int) []string {
 		return []string{"z3-new", fmt.Sprintf("-T:%d", t), "smt.auto_config=false", "smt.mbqi=false", "smt.relevancy=0", "-smt2", f}
 	}},
+	"z3-new/short": {"z3-new", func(f string, t int) []string { return []string{"z3-new", fmt.Sprintf("-T:%d", t), "-smt2", f} }},
 	"z3-new": {"z3-new", func(f string, t int) []string { return []string{"z3-new", fmt.Sprintf("-T:%d", t), "-smt2", f} }},
 	"z3":     {"z3", func(f string, t int) []string { return []string{"z3", fmt.Sprintf("-T:%d", t), "-smt2", f} }},
 	"cvc5":   {"cvc5", func(f string, t int) []string { return []string{"cvc5", fmt.Sprintf("--tlimit=%d", t*1000), "--produce-models", f} }},
@@ -179,7 +180,9 @@ func solveAll(dir string, jobs []*solveJob, tier string, timeoutS int, workers i
 				return
 			}
 			defer os.Remove(file)
-			order := []string{"z3-new/em", "z3-new/em0", "z3-new", "cvc5", "z3"}
+			// E-matching first; then a short run of the default configuration (MBQI often closes in milliseconds what
+			// E-matching cannot), then the slower ones
+			order := []string{"z3-new/em", "z3-new/short", "z3-new/em0", "z3-new", "cvc5", "z3"}
 			if strings.Contains(j.text, "str.in_re") {
 				order = []string{"z3-new", "z3"} // cvc5 1.0.3 does not terminate on these
 			}
@@ -195,6 +198,12 @@ func solveAll(dir string, jobs []*solveJob, tier string, timeoutS int, workers i
 					if t < 2 {
 						t = 2
 					}
+				}
+				if s == "z3-new/short" {
+					if tier != "quick" {
+						continue
+					}
+					t = 2
 				}
 				file2 := file
 				if s == "cvc5" {
